@@ -83,6 +83,7 @@ class MpStudyEngine(EngineBase):
         harness_errors = []
         sim_time = 0.0
         steps = 0
+        max_lines = 0
         n_att = len(plan['attempts'])
         final_value = None
 
@@ -92,6 +93,7 @@ class MpStudyEngine(EngineBase):
         for j, att in enumerate(plan['attempts']):
             kernel = Kernel(att.get('sched'), att.get('kill'), step_budget=plan.get('step_budget', 100000),
                             tick=plan.get('tick', 0.001), t0=1.7e9 + j * 1.0e6)
+            kernel.trace_files = (M.__file__,)
             fs.kernel = kernel
             ctx = workload.RunContext(plan, ref, kernel, j, records)
             ctx.post_calls = []
@@ -122,6 +124,7 @@ class MpStudyEngine(EngineBase):
             fs.kernel = None
             workload.CURRENT = None
             steps += kernel.step
+            max_lines = max(max_lines, kernel.lines)
             sim_time += kernel.now - kernel.t0
             for ev in kernel.events:
                 hist.update(repr(ev).encode())
@@ -129,8 +132,8 @@ class MpStudyEngine(EngineBase):
             if kernel.failed:
                 harness_errors.append('attempt %d: %s' % (j, kernel.failed))
                 outcome = {'kind': 'harness'}
-            elif kernel.budget_exceeded:
-                outcome = {'kind': 'budget'}
+            elif kernel.budget_exceeded or kernel.line_budget_exceeded:
+                outcome = {'kind': 'budget', 'where': kernel.kill_context}
             elif kernel.killed:
                 outcome = {'kind': 'killed', 'step': kernel.kill_step, 'at': kernel.kill_context}
                 bump('fault:kill_fired')
@@ -199,7 +202,8 @@ class MpStudyEngine(EngineBase):
             'violations': violations, 'digest': dig, 'key': dig, 'nontrivial': faults_fired > 0,
             'counters': counters, 'sets': sets, 'sim_time_s': sim_time, 'steps': steps,
             'harness_errors': harness_errors, 'trace': trace, 'sample': sample,
-            'maxima': {'steps_per_run': steps, 'cases': ref.total, 'sim_seconds_per_run': sim_time},
+            'maxima': {'steps_per_run': steps, 'cases': ref.total, 'sim_seconds_per_run': sim_time,
+                       'line_events_in_code_under_test_per_attempt': max_lines},
         }
 
     @staticmethod
@@ -244,7 +248,7 @@ class MpStudyEngine(EngineBase):
                 break
         # 1. bounded liveness of the fault-free final attempt
         if last['kind'] == 'budget':
-            viol('liveness', 'step-budget', 'the fault-free final attempt did not finish within the step budget')
+            viol('liveness', 'step-budget', 'the fault-free final attempt did not finish within its step / line budget (%s)' % last.get('where'))
             return V
         if last['kind'] == 'raised':
             msg = _norm_msg(last['msg'])
